@@ -716,8 +716,8 @@ func (maybeSelf someDef[T]) ToByte() (byte, error) {
 	default:
 		return uint8(0), ErrConversionUnsupported
 	case string:
-		parseInt, err := strconv.ParseInt((ref).(string), 10, 8)
-		return uint8(parseInt), err
+		parseUint, err := strconv.ParseUint((ref).(string), 10, 8)
+		return uint8(parseUint), err
 	case bool:
 		val, err := maybeSelf.ToBool()
 		if val {
@@ -812,8 +812,8 @@ func (maybeSelf someDef[T]) ToUint() (uint, error) {
 	default:
 		return 0, ErrConversionUnsupported
 	case string:
-		parseInt, err := strconv.ParseInt((ref).(string), 10, 32)
-		return uint(parseInt), err
+		parseUint, err := strconv.ParseUint((ref).(string), 10, 32)
+		return uint(parseUint), err
 	case bool:
 		val, err := maybeSelf.ToBool()
 		if val {
@@ -907,8 +907,8 @@ func (maybeSelf someDef[T]) ToUint16() (uint16, error) {
 	default:
 		return uint16(0), ErrConversionUnsupported
 	case string:
-		parseInt, err := strconv.ParseInt((ref).(string), 10, 16)
-		return uint16(parseInt), err
+		parseUint, err := strconv.ParseUint((ref).(string), 10, 16)
+		return uint16(parseUint), err
 	case bool:
 		val, err := maybeSelf.ToBool()
 		if val {
@@ -1000,8 +1000,8 @@ func (maybeSelf someDef[T]) ToUint32() (uint32, error) {
 	default:
 		return uint32(0), ErrConversionUnsupported
 	case string:
-		parseInt, err := strconv.ParseInt((ref).(string), 10, 32)
-		return uint32(parseInt), err
+		parseUint, err := strconv.ParseUint((ref).(string), 10, 32)
+		return uint32(parseUint), err
 	case bool:
 		val, err := maybeSelf.ToBool()
 		if val {
@@ -1087,8 +1087,8 @@ func (maybeSelf someDef[T]) ToUint64() (uint64, error) {
 	default:
 		return uint64(0), ErrConversionUnsupported
 	case string:
-		parseInt, err := strconv.ParseInt((ref).(string), 10, 64)
-		return uint64(parseInt), err
+		parseUint, err := strconv.ParseUint((ref).(string), 10, 64)
+		return uint64(parseUint), err
 	case bool:
 		val, err := maybeSelf.ToBool()
 		if val {
@@ -1173,9 +1173,9 @@ func (maybeSelf someDef[T]) ToUintptr() (uintptr, error) {
 	default:
 		return uintptr(0), ErrConversionUnsupported
 	case string:
-		parseInt, err := strconv.ParseInt((ref).(string), 10, 64)
-		if uint64(parseInt) <= maxUintptr {
-			return uintptr(parseInt), err
+		parseUint, err := strconv.ParseUint((ref).(string), 10, 64)
+		if parseUint <= maxUintptr {
+			return uintptr(parseUint), err
 		}
 		return uintptr(0), ErrConversionSizeOverflow
 	case bool:
